@@ -136,6 +136,11 @@ def _res(fn):
 
 
 
+def _buf(l):
+    """decoder input: bytes, or (for inputs of odd length) a bytearray -- the decoders accept both"""
+    return bytearray(l) if len(l) % 2 else bytes(l)
+
+
 def _frame_fields(f):
     return [_fhdr_fields(f.header), _tfdf_fields(f.tfdf), list(f.tfdf.tfdz), _of_ob(f.insert_zone),
             _of_ob(f.op_ctrl_field), _of_ob(f.fecf), [f.len()]]
@@ -241,11 +246,11 @@ def impl(op, a):
     if op == 1600:
         return [list(_phdr(a[0]).pack())]
     if op == 1601:
-        h = uh.PrimaryHeader.unpack(bytes(a[0]), a[1][0]); return [_phdr_fields(h), [h.len()]]
+        h = uh.PrimaryHeader.unpack(_buf(a[0]), a[1][0]); return [_phdr_fields(h), [h.len()]]
     if op == 1602:
         return [list(_thdr(a[0]).pack())]
     if op == 1603:
-        h = uh.TruncatedPrimaryHeader.unpack(bytes(a[0]), a[1][0]); return [_base_fields(h), [h.len()]]
+        h = uh.TruncatedPrimaryHeader.unpack(_buf(a[0]), a[1][0]); return [_base_fields(h), [h.len()]]
     if op == 1604:
         return [[uh.determine_header_type(bytes(a[0])).value]]
     if op == 1605:
@@ -259,7 +264,7 @@ def impl(op, a):
     if op == 1611:
         return [list(_tfdf(a[0], a[1]).pack(truncated=bool(a[2][0]), frame_type=_ft(a[2][1])))]
     if op == 1612:
-        t = uf.TransferFrameDataField.unpack(raw_tfdf=bytes(a[0]), truncated=bool(a[1][0]), exact_len=a[1][1],
+        t = uf.TransferFrameDataField.unpack(raw_tfdf=_buf(a[0]), truncated=bool(a[1][0]), exact_len=a[1][1],
                                              frame_type=_ft(a[1][2]))
         return [_tfdf_fields(t), list(t.tfdz)]
     if op == 1613:
@@ -840,6 +845,12 @@ def harden_streams(tier, rng):
         a, raw, ft, tr = sized_frame(rng, rule, rng.choice([0, 1, 7]), iz, ocf, fecf)
         d = rbytes(rng, rng.choice([0, 2, 11]))
         cases.append((1633, a + [[0, rng.choice([2, ft])], [13], [3], [rng.choice([0, 16, 17])] + d, [3], [1], [2], [14], [13], [2]]))
+    # a refused replacement of the data field (data zone beyond the constructor's limit): nothing may change
+    for has in (0, 1):
+        a, raw, ft, tr = sized_frame(rng, 0 if has else 7, 5, [1, 9], [0], [1, 1, 2])
+        big_dz = [0x77] * (65528 - (2 if has else 0))
+        cases.append((1633, a + [[0, 2], [3], [12, a[1][0], 1, has, 7] + big_dz, [3], [2], [14],
+                                 [12, a[1][0], 1, has, 7] + big_dz[:-2], [3]]))
     yield "frame_wide_histories", "exact", cases
     # H. header objects on their own: every attribute assigned, pack / len in between
     cases = []
@@ -891,6 +902,17 @@ def harden_streams(tier, rng):
     for n in (65523, 65524, 65525, 65526, 65527, 65528, 65529):      # around the TFDF limit: refused by the constructor or packed whole
         cases.append((1621, [[0, 5, 0, 1, 1], [7, 0, 0, 0], [0x33] * n, [0], [0], [0], [1, 2]]))
         cases.append((1621, [[0, 5, 0, 1, 1], [0, 0, 1, 9], [0x33] * (n - 2), [0], [0], [0], [0, 0]]))
+    # the data field decoder on its own: every exact_len 1..1100 inside a longer buffer
+    for ex in range(1, 1101):
+        r = rng.randrange(8)
+        raw = [(r << 5) | rng.randrange(32)] + rbytes(rng, ex - 1 + rng.choice([0, 1, 2, 40]))
+        cases.append((1612, [raw, [rng.randrange(2), ex, rng.choice([0 if r < 3 else 1, 2])]]))
+    # headers in front of long buffers (every count length), bytes and bytearray
+    for n in range(8):
+        for extra in (0, 1, 505, 506, 1093):
+            lay = phdr_layout(rand_phdr(rng, n=n))
+            cases.append((1601, [lay + rbytes(rng, extra), [12]]))
+            cases.append((1603, [base_layout(*rand_base(rng), 1) + rbytes(rng, extra), [12]]))
     yield "exh_frame_dz_sizes", "exact", cases
     # J. every insert-zone / OCF / FECF size combination; absent zone with a configured size; sizes up to the limit
     cases = []
